@@ -59,6 +59,8 @@ class Check(FormulaCheck):
                    'TEXTJOIN items are text or blank, CONCATENATE items also whole numbers (spelled by their decimal digits); empty text is text and is not used together with ignore_empty=TRUE',
                    'PROPER upper-cases exactly after a non-letter is asserted on ASCII-only strings; CLEAN need not remove U+007F')
 
+    NO_AMBIENT = ('charcode',)
+
     def plan(self, tier, seed):
         n, k = (450, 16) if tier == 'quick' else (25000, 32)
         specs = [{'campaign': 'sentinels'}]
@@ -123,8 +125,33 @@ class Check(FormulaCheck):
                 j = self.ev('LEFT(%s,1)&RIGHT(%s,LEN(%s)-1)' % (lit, lit, lit))
                 self.expect('C15/LEFT&RIGHT=s', j == s, s=s, n=1, got=j, literal=lit[:1])
 
+    # accented letters whose case mapping changes the length of the text, has a separate title case, depends on position, or that are
+    # written with combining marks: 'changes only letter case' is judged on the whole text (case-folded), idempotence as everywhere
+    SPECIAL = ('\u00df\u1e9e\u0149\u01f0\u0390\u03b0\u0130\u0131\ufb01\ufb02\ufb03\u01c4\u01c5\u01c6\u01f1\u01f2\u01f3\u03a3\u03c3\u03c2\u1f80\u1f88\u1fb3\u1fbc\u0345'
+               'e\u0301E\u0301a\u0308\u0307\u02bc\u00b5\u212a\u212b\u017f')
+
+    def casefuncs_special(self, rnd):
+        rec = self.rec
+        s = ''.join(rnd.choice(self.SPECIAL if rnd.random() < 0.5 else 'ab Z1-.') for _ in range(rnd.randint(1, 12)))
+        for fn in ('UPPER', 'LOWER', 'PROPER', 'TRIM', 'CLEAN'):
+            o = self.ev(fn + '(v_s)', v_s=s)
+            o2 = self.ev('%s(%s(v_s))' % (fn, fn), v_s=s)
+            rec.nt((fn, s))
+            if not self.expect('C15/%s-not-text' % fn, isinstance(o, str) and not self.is_err(o), s=s, got=o):
+                continue
+            self.expect('C15/%s-not-idempotent:special-casing' % fn, o == o2, s=s, once=o, twice=o2)
+            if fn in ('UPPER', 'LOWER', 'PROPER'):
+                # same text up to case: compared after upper-casing and case-folding both (the dotless i folds to itself but upper-cases
+                # to I), in canonical decomposition (case mappings compose and decompose accents freely)
+                fold = lambda t: unicodedata.normalize('NFD', unicodedata.normalize('NFD', t.upper()).casefold())
+                self.expect('C15/%s-changes-more-than-case:special-casing' % fn, fold(o) == fold(s), s=s, got=o)
+            else:
+                self.expect('C15/%s-changes-letters' % fn, o.replace(' ', '') == s.replace(' ', '') if fn == 'TRIM' else o == s, s=s, got=o)
+
     def casefuncs(self, rnd, s):
         rec = self.rec
+        if rnd.random() < 0.3:
+            self.casefuncs_special(rnd)
         for fn in ('UPPER', 'LOWER', 'PROPER', 'TRIM', 'CLEAN'):
             o = self.ev(fn + '(v_s)', v_s=s)
             o2 = self.ev('%s(%s(v_s))' % (fn, fn), v_s=s)
